@@ -33,7 +33,14 @@ func drawBlob(c *core.Ctx, label string) []byte {
 	return c.BytesN(label, n)
 }
 
+// emptyOCSP is set by drawChain when the invalid pattern uses a zero-length
+// OCSP value: only the writer is judged then (after decoding, an empty byte
+// string is indistinguishable from an absent one, a declared don't-care zone
+// of the reader).
+var emptyOCSP bool
+
 func drawChain(c *core.Ctx) ([]lcert, bool) {
+	emptyOCSP = false
 	n := c.Int("chain.n", 1, 4)
 	perm := c.Perm("chain.perm", len(fixtures.Leaves)+1)
 	var ch []lcert
@@ -49,7 +56,7 @@ func drawChain(c *core.Ctx) ([]lcert, bool) {
 	}
 	// presence pattern
 	valid := true
-	pattern := c.Pick("chain.pattern", 6) // 0-3 valid, 4 missing on leaf, 5 present on a non-leaf
+	pattern := c.Pick("chain.pattern", 7) // 0-3 valid, 4 missing on leaf, 5 present on a non-leaf, 6 empty-but-present on a non-leaf
 	ch[0].ocsp = drawBlob(c, "chain.ocsp")
 	switch pattern {
 	case 4:
@@ -62,6 +69,13 @@ func drawChain(c *core.Ctx) ([]lcert, bool) {
 			valid = false
 			c.Probe("OCSP present on a non-leaf")
 		}
+	}
+	if pattern == 6 && n > 1 {
+		// present but zero-length: the writer would emit an "ocsp" key on a later element
+		ch[c.Int("chain.ocspAt", 1, n-1)].ocsp = []byte{}
+		valid = false
+		emptyOCSP = true
+		c.Probe("empty OCSP present on a non-leaf")
 	}
 	for i := range ch {
 		if c.Chance("chain.sct", 1, 3) {
@@ -128,6 +142,10 @@ func TestClean(t *testing.T) {
 				if c.Oracle("C17") {
 					if err == nil {
 						c.Violation("invalid-chain-written", "CertChain.Write", "a chain with an invalid OCSP presence pattern was written")
+					}
+					if emptyOCSP {
+						c.Outcome("nt:refused")
+						return
 					}
 					// the same chain, serialized by the reference encoder, must be refused by the reader
 					rb := refEncode(ch)
